@@ -116,7 +116,48 @@ def mig():
               unstaked(1, 50, frm="collector", limited=False), unstaked(1, 50), withdraw("u1", 1),
               breaker(), M,                                                # upgraded while halted: still halted
               stake("u2", 10), rewards(10), unstake("u1", 5), breaker("mon1"),
-              resume(n=126, l=50, r=40), stake("u2", 10), ack(3), feew(1), M, feew(1), rewards(20), ack(4)]
+              resume(n=126, l=50, r=40), stake("u2", 10), ack(3), feew(1), M, feew(1), rewards(20), ack(4),
+              # ... and the 1.0.0 -> 1.1.0 step with a failed, a timed-out and an in-flight transfer on the books:
+              # what was refundable before the upgrade is recovered after it, what was in flight still resolves
+              stake("u1", 30), stake("u2", 20), stake("u3", 10), ack(5, "err"), ack(6, "timeout"), {"m": "migrate_roundtrip"},
+              recover("u3"), ack(7), ack(8)]
+    return S
+
+
+def rec12():
+    """more refunded transfers than one page of the recovery: everything that is summed into the re-send is also
+    removed from the records (non-paginated: all twelve at once; paginated: ten, then two), nothing is sent twice"""
+    S = []
+    for run, pag in ((1, "none"), (2, "true"), (3, "false")):
+        S += start(run)
+        S += [stake("u1", 10 + k) for k in range(12)]
+        S += [ack(k + 1, "timeout" if k % 2 else "err") for k in range(12)]
+        S += [recover("u3", paginated=pag), recover("u3", paginated=pag), recover("u2", paginated=pag),
+              ack(13), ack(14, "err"), recover("u1"), ack(15)]
+    return S
+
+
+def crowd():
+    """one batch with more requesters than any scan bound: the burn of the batch submission is the batch total (C19), the
+    payouts are exact shares (C05), the per-user index holds one request each (C17)"""
+    users = [f"v{k}" for k in range(1, 36)]
+    S = start(1, users=tuple(users), funds=100)
+    S += [stake(u, 20) for u in users]
+    S += [ack(k + 1) for k in range(len(users))]
+    S += [unstake(u, 5 + (k % 3)) for k, u in enumerate(users)]
+    S += [dt(100), submit(), dt(1000), unstaked(1, sum(5 + (k % 3) for k in range(len(users))) - 3, limited=False)]
+    S += [withdraw(u, 1) for u in users[:6]] + [withdraw(users[0], 1)]
+    return S
+
+
+def tinst():
+    """the treasury is deployed by somebody who is NOT its designated admin (the usual deployer / admin split): the admin
+    role belongs to the account named in the message, not to the sender"""
+    S = start(1)
+    TI = lambda s, admin: {"m": "t_instantiate", "s": s, "admin": admin, "trader": "trader", "routes": []}
+    sp = lambda s: {"m": "t_spend", "s": s, "den": IB, "amt": 1, "receiver": "u1", "channel": ""}
+    uc = lambda s: {"m": "t_update_config", "s": s, "has_trader": True, "trader": "u2", "has_routes": False, "routes": []}
+    S += [TI("u3", "admin"), faucet("treasury", 50), sp("u3"), uc("u3"), sp("admin"), uc("admin"), sp("u2")]
     return S
 
 
@@ -139,7 +180,7 @@ def kf2():
     return S
 
 
-SCEN = {"C09": c09, "C18": c18, "C19": c19, "C19b": c19b, "MIG": mig, "KF2": kf2}
+SCEN = {"C09": c09, "C18": c18, "C19": c19, "C19b": c19b, "MIG": mig, "REC12": rec12, "CROWD": crowd, "TINST": tinst, "KF2": kf2}
 
 if __name__ == "__main__":
     os.makedirs(OUT, exist_ok=True)
